@@ -33,7 +33,7 @@ META = {
     'assumptions': ['A1', 'A2', 'A5', 'A7'],
     'not_decided': [
         'convergence order of central differences (analysis fact); derivatives of ufunc operators / NormOperator / DistOperator '
-        'and product-space operators are not under contract yet',
+        'are not under contract yet (bounded operator pool only); block operators: entry patterns enumerated (9 patterns up to 3 x 2), is_linear flag taken from the instance',
     ],
 }
 
@@ -426,6 +426,8 @@ def units(tier, seed):
     us.append(unit_operator_pool_bounded())
     from contracts import blocklib
     us.extend(blocklib.units('derivative'))
+    from contracts import grouplib
+    us.extend(grouplib.pointwise_norm_units())
     us.append(unit_canary())
     return us
 
